@@ -209,6 +209,7 @@ type tr struct {
 	escaped map[types.Object]bool // locals living in a heap cell (address taken)
 	captured []capturedVar
 	rangeColl map[int]Term
+	loopEntry map[int]Env // state on entry to each loop (for at_loop)
 	calledResults []Term
 	hasRecover bool
 }
